@@ -69,7 +69,8 @@ func effective(c Case) (string, bool) {
 		if style == "" {
 			style = "form"
 		}
-		explode = true
+		// "When style is form, the default value is true. For all other styles, the default value is false."
+		explode = style == "form"
 	}
 	if c.Explode == "true" {
 		explode = true
@@ -81,6 +82,9 @@ func effective(c Case) (string, bool) {
 
 func cell(c Case) string {
 	st, ex := effective(c)
+	if c.Explode == "" && c.Style != "" && c.Style != "form" && (c.In == "query" || c.In == "cookie") {
+		return fmt.Sprintf("%s/%s/explode=default", c.In, st) // the default of a style other than form
+	}
 	return fmt.Sprintf("%s/%s/explode=%v", c.In, st, ex)
 }
 
@@ -439,6 +443,14 @@ var cells = []cellT{
 	{"query", "", ""}, {"query", "form", "true"}, {"query", "form", "false"}, {"query", "spaceDelimited", "false"}, {"query", "spaceDelimited", "true"}, {"query", "pipeDelimited", "false"}, {"query", "pipeDelimited", "true"}, {"query", "deepObject", "true"},
 	{"header", "", ""}, {"header", "simple", "false"}, {"header", "simple", "true"},
 	{"cookie", "", ""}, {"cookie", "form", "false"}, {"cookie", "form", "true"},
+	// one of the two keywords written, the other left to its default
+	{"query", "form", ""}, {"query", "", "false"}, {"cookie", "form", ""}, {"cookie", "", "false"}, {"header", "simple", ""}, {"header", "", "true"},
+	{"path", "simple", ""}, {"path", "label", ""}, {"path", "matrix", ""}, {"path", "", "true"},
+}
+
+func init() {
+	// the default of explode under a style other than form is false
+	cells = append(cells, cellT{"query", "spaceDelimited", ""}, cellT{"query", "pipeDelimited", ""})
 }
 
 // forbidden characters inside string members for a cell (the cell's own delimiters)
